@@ -235,7 +235,15 @@ def check_vec(ctx, config, rule):
         k.check('RawVec::shrink_to_fit', 'panics exactly when cap < amount', bool(pan) and any(('lt', CAPL, P2) in e.state.facts for e in pan), '', b.get('span'))
         db_ = [e for e in ev if (e.callee or '').endswith('::dealloc_buffer')]
         ni = [e for e in ev if (e.callee or '').endswith('RawVec::<\'a, T>::new_in')]
-        okz = len(db_) == 1 and any(f in (('eq', C(0), P2), ('eq', P2, C(0))) for f in db_[0].state.facts) and len(ni) == 1 and ni[0].args == [AL_] and r.events.index(db_[0]) < r.events.index(ni[0])
+        zero = lambda e: any(f in (('eq', C(0), P2), ('eq', P2, C(0))) for f in e.state.facts)
+        okz = len(db_) == 1 and zero(db_[0]) and len(ni) == 1 and ni[0].args == [AL_] and r.events.index(db_[0]) < r.events.index(ni[0])
+        if not okz and len(db_) == 1 and zero(db_[0]) and not ni:
+            # the same state written field by field: ptr := dangling, cap := 0, the arena handle untouched
+            fs = [e for e in own(r, 'store') if zero(e) and r.events.index(e) > r.events.index(db_[0])]
+            pst = [e for e in fs if e.lv == fld(SELF, R_ + '.ptr')]
+            cst = [e for e in fs if e.lv == fld(SELF, R_ + '.cap')]
+            ast = [e for e in own(r, 'store') if e.lv == fld(SELF, R_ + '.a')]
+            okz = len(pst) == 1 and 'dangling' in repr(pst[0].val) and len(cst) == 1 and cst[0].val == C(0) and not ast
         k.check('RawVec::shrink_to_fit', 'amount == 0: the buffer is released and self becomes an empty RawVec in the same arena', okz)
         ra = [e for e in ev if (e.extra.get('trait_path') or '') == 'alloc::Alloc::realloc']
         sts = own(r, 'store')
@@ -244,7 +252,7 @@ def check_vec(ctx, config, rule):
             and any(f[0] == 'ne' and set(f[1:]) == {CAPL, P2} for f in ra[0].state.facts)
         k.check('RawVec::shrink_to_fit', 'otherwise realloc(ptr, Layout(cap * size), amount * size) exactly when cap != amount', okr)
         capst = [e for e in sts if e.lv == fld(SELF, R_ + '.cap')]
-        k.check('RawVec::shrink_to_fit', 'cap := amount', bool(capst) and all(e.val == P2 for e in capst))
+        k.check('RawVec::shrink_to_fit', 'cap := amount', bool(capst) and all(e.val == P2 or (is_c(e.val) and (('eq', e.val, P2) in e.state.facts or ('eq', P2, e.val) in e.state.facts)) for e in capst))
     b = method(db, 'raw_vec::RawVec', 'dealloc_buffer')
     if b:
         I, r = k.run(b)
